@@ -540,6 +540,12 @@ def _argmax(a, axis=None, **kw):
     if axis is not None:
         raise core.StubMiss("argmax(axis) on symbolic data")
     xs = _flat(a)
+    if xs and all(isinstance(x, (SBool, bool, np.bool_)) for x in xs):
+        # boolean entries: the index of the first True (0 if there is none) -- one fork per entry instead of one per pair
+        for i, x in enumerate(xs):
+            if bool(x):
+                return i
+        return 0
     for i in range(len(xs)):
         best = True
         for j in range(len(xs)):
